@@ -120,7 +120,11 @@ class AddEnclosingMiddleware(BlockMiddleware):
         enclosing = self._default_enclosing
         if self._reuse_previous_enclosing and metadata_enclosing is not None:
             enclosing = metadata_enclosing
-        elif apply_int_rule and not self._enclose_integers and value.isdigit():
+        elif (
+            apply_int_rule
+            and not self._enclose_integers
+            and (isinstance(value, int) or value.isdigit())
+        ):
             return value
 
         if enclosing == "{":
